@@ -73,7 +73,7 @@ def judge(ctx, cases):
         case = {"a": L["a"], "b": L["b"], "igs": [ign], "salt": L["salt"]}
         key = (json.dumps(case, sort_keys=True), b["ord"], b["kind"], "/".join(str(x) for x in b["loc"]))
         g = groups.setdefault(key, {"forms": set(), "case": case, "got": got})
-        g["forms"].add(L["f"])
+        g["forms"] |= {"simple", "gen"} if L["f"] == "both" else {L["f"]}
     for (ck, ord_, kind, loc), g in groups.items():
         api = API.get(kind, "alt.Diff/Compare" if loc == "panic" else "alt.Match")
         if len(g["forms"]) == 1:
@@ -83,7 +83,8 @@ def judge(ctx, cases):
                "order": "(a,b)" if ord_ == "ab" else "(b,a)"}
         recs.append({"api": api, "kind": kind, "locus": loc, "witness": wit, "case": case, "detail": {"returned": showobs(g["got"])}})
     judge.last = res
-    ctx.cov["evaluations"] += sum(4 + 4 * l.count(b'"ign"') for l in lines)
+    # per line: 2 Match calls + per ignore set 2 Diff + 2 Compare calls; a "both" line stands for two forms
+    ctx.cov["evaluations"] += sum((2 if l.startswith(b'{"f":"both"') else 1) * (2 + 4 * l.count(b'"ign"')) for l in lines)
     ctx.cov["observations"] = ctx.cov.get("observations", 0) + sum(2 * l.count(b'"ign"') for l in lines)
     return recs
 
@@ -129,7 +130,7 @@ def main(ctx):
     cases = tlc_cases(ctx, 3, 1, False, 0)
     ctx.cov["model_pairs_exhaustive"] = len(cases)
     if ctx.quick:
-        sim = tlc_cases(ctx, 7, 3, True, 6, simulate="num=250", depth=14)
+        sim = tlc_cases(ctx, 7, 3, True, 6, simulate="num=120", depth=14)
     else:
         cases += tlc_cases(ctx, 4, 1, False, 0)
         cases += tlc_cases(ctx, 3, 2, False, 16)
@@ -143,7 +144,7 @@ def main(ctx):
     verif.write_ndjson(cp, cases)
     # seeded random pairs beyond the model's alphabets
     ab = ctx.build("altops")
-    nrand = 3000 if ctx.quick else 60000
+    nrand = 2500 if ctx.quick else 60000
     with open(cp, "ab") as f:
         ctx.run([ab, "diffrand", "-n", str(nrand)], stdout=f)
     ctx.cov["random_pairs"] = nrand
